@@ -318,6 +318,13 @@ def check_case(sess, case):
         ops = [case["op"]] if case.get("op") else (OPS if case["mask"] is None else MASKED_OPS)
         for op in ops:
             cur["op"] = op; fn = _fn(op); calls += 1
+            if isinstance(m, np.ndarray) and m.dtype == bool and n >= 2:
+                # callers reuse one mask buffer: the same array object first holds another selection (and is used), then is refilled in place with this one - the labels listed
+                # must be those observed under the buffer's CURRENT content
+                want = m.copy(); m[:] = ~want
+                try: _call(gb, op, f, m, obs); calls += 1
+                except Exception: pass
+                m[:] = want
             try: res = _call(gb, op, f, m, obs)
             except Exception as ex:
                 rec("raises", fn, f"aligned inputs must not fail: {type(ex).__name__}", str(ex)[:200]); continue
